@@ -210,6 +210,34 @@ def inner_cfgs(sf, ed, lo, hi):
         i += 1
 
 
+def attach_loops(sf, ed, spec, lo, hi, what, used=None, check=True):
+    """Insert the loop sections of the overlay at the loops of st[lo:hi]: `loop N` by ordinal, `loop <<head>>` by the
+    tokens the loop head starts with. Every loop of the range needs a section and vice versa (else: shape change)."""
+    st = sf.st
+    loops = find_loops(sf, lo, hi)
+    by_ord = sorted(k[1] for k in spec.sections if isinstance(k, tuple) and k[0] == 'loop')
+    by_txt = [k for k in spec.sections if isinstance(k, tuple) and k[0] == 'loopt']
+    if check and len(loops) != len(by_ord) + len(by_txt):
+        raise ExtractError('%s: range has %d loops, overlay has invariants for %d (shape change)' % (what, len(loops), len(by_ord) + len(by_txt)))
+    taken = set()
+    for key in by_txt:
+        texts = plain_texts(key[1])
+        hits = [i for i, (kw, bo) in enumerate(loops) if [t.text for t in st[kw:kw + len(texts)]] == texts]
+        if len(hits) != 1:
+            raise ExtractError('%s: loop head `%s` matches %d loops (anchor lost)' % (what, key[1], len(hits)))
+        taken.add(hits[0])
+        ed.ins(st[loops[hits[0]][1]].start, '\n' + spec.sections[key] + '\n')
+        if used is not None:
+            used.add(key)
+    rest = [lp for i, lp in enumerate(loops) if i not in taken] if by_txt else loops
+    for n in by_ord:
+        if n < 1 or n > len(rest):
+            raise ExtractError('%s: loop %d not found' % (what, n))
+        ed.ins(st[rest[n - 1][1]].start, '\n' + spec.sections[('loop', n)] + '\n')
+        if used is not None:
+            used.add(('loop', n))
+
+
 def find_loops(sf, lo, hi):
     """Indices (kw_idx, body_open_idx) of loops in st[lo:hi] in textual order."""
     st, m = sf.st, sf.m
@@ -673,16 +701,7 @@ def emit_item(spec, log, vacuity=False):
             if 'exit' in spec.sections:
                 ed.ins(st[it.last].start, '\n' + spec.sections['exit'] + '\n')
                 used.add('exit')
-            loops = find_loops(sf, body_open + 1, it.last)
-            want_loops = sorted(k[1] for k in spec.sections if isinstance(k, tuple) and k[0] == 'loop')
-            if 'noloopcheck' not in spec.opts and len(loops) != len(want_loops):
-                raise ExtractError('%s: body has %d loops, contract overlay has invariants for %d (shape change: needs contract)'
-                                   % (spec.path, len(loops), len(want_loops)))
-            for n in want_loops:
-                if n < 1 or n > len(loops):
-                    raise ExtractError('%s: loop %d not found' % (spec.path, n))
-                ed.ins(st[loops[n - 1][1]].start, '\n' + spec.sections[('loop', n)] + '\n')
-                used.add(('loop', n))
+            attach_loops(sf, ed, spec, body_open + 1, it.last, spec.path, used, check='noloopcheck' not in spec.opts)
             annotate_closures(sf, ed, spec, body_open + 1, it.last, used)
             place_ghost_at_anchors(sf, ed, spec, body_open + 1, it.last, used)
         lo_rw, hi_rw = hdr_lo, it.last + 1
@@ -774,9 +793,12 @@ def emit_slice(spec, log, vacuity=False):
         if len(fh) != fn_ or len(th) != tn_:
             raise ExtractError('%s: slice anchors match %d/%d sites, expected %d/%d (anchor lost)' % (spec.path, len(fh), len(th), fn_, tn_))
         lo = fh[fk - 1]
+        exclusive = len(sel) > 5 and sel[5]
         # extend `to` to the end of its statement: next `;` at depth 0, or the closing brace of a block statement
+        # (`..<`: the range ends right BEFORE the statement that starts with the second anchor, so that anything inserted
+        # between the last covered statement and it is inside the slice)
         k = th[tk - 1]
-        while True:
+        while not exclusive:
             tx = st[k].text
             if tx in OPEN:
                 k = m[k]
@@ -791,8 +813,10 @@ def emit_slice(spec, log, vacuity=False):
                 k -= 1
                 break
             k += 1
-        hi = k
-        desc = 'statements `%s` .. `%s`' % (sel[1], sel[2])
+        hi = (k - 1) if exclusive else k
+        if hi < lo:
+            raise ExtractError('%s: empty statement range (anchor lost)' % spec.path)
+        desc = 'statements `%s` .. `%s`%s' % (sel[1], sel[2], ' (exclusive)' if exclusive else '')
     start, end = st[lo].start, st[hi].end
     ed = Edits(sf, start, end)
     inner_cfgs(sf, ed, lo, hi + 1)
@@ -804,12 +828,7 @@ def emit_slice(spec, log, vacuity=False):
         sp = (sp.rstrip(',') + ',\n ' + bogus + ',') if re.search(r'\bensures\b', sp) else (sp + '\n ensures ' + bogus + ',')
     ed.ins(start, spec.sections.get('sig', '') + '\n' + sp + '\n{\n' + spec.sections.get('entry', '') + '\n')
     ed.ins(end, '\n' + spec.sections.get('tail', '') + '\n}')
-    loops = find_loops(sf, lo, hi + 1)
-    want_loops = sorted(k[1] for k in spec.sections if isinstance(k, tuple) and k[0] == 'loop')
-    if len(loops) != len(want_loops):
-        raise ExtractError('%s (%s): range has %d loops, overlay has invariants for %d (shape change)' % (spec.path, desc, len(loops), len(want_loops)))
-    for n2 in want_loops:
-        ed.ins(st[loops[n2 - 1][1]].start, '\n' + spec.sections[('loop', n2)] + '\n')
+    attach_loops(sf, ed, spec, lo, hi + 1, '%s (%s)' % (spec.path, desc))
     annotate_closures(sf, ed, spec, lo, hi + 1, set())
     place_ghost_at_anchors(sf, ed, spec, lo, hi + 1, set())
     apply_rws(sf, ed, spec, lo, hi + 1)
@@ -995,15 +1014,16 @@ def expand_fragment(frag_name, text, out_lines, regions, log, vacuity=False):
                 if ms:
                     opts['sel'] = ('closure', int(ms.group(1)))
                 else:
-                    ms = re.match(r'^stmts\s+<<(.*?)>>(?:#(\d+)/(\d+))?\s*\.\.\s*<<(.*?)>>(?:#(\d+)/(\d+))?$', selector.strip())
+                    ms = re.match(r'^stmts\s+<<(.*?)>>(?:#(\d+)/(\d+))?\s*\.\.(<?)\s*<<(.*?)>>(?:#(\d+)/(\d+))?$', selector.strip())
                     ml = re.match(r'^loopbody\s+<<(.*?)>>(?:#(\d+)/(\d+))?$', selector.strip())
                     ma = re.match(r'^after\s+<<(.*?)>>$', selector.strip())
                     if selector.strip() == 'body':
                         opts['sel'] = ('body',)
                     elif ms:
-                        opts['sel'] = ('stmts', ms.group(1), ms.group(4),
+                        opts['sel'] = ('stmts', ms.group(1), ms.group(5),
                                        (int(ms.group(2)), int(ms.group(3))) if ms.group(2) else (1, 1),
-                                       (int(ms.group(5)), int(ms.group(6))) if ms.group(5) else (1, 1))
+                                       (int(ms.group(6)), int(ms.group(7))) if ms.group(6) else (1, 1),
+                                       ms.group(4) == '<')
                     elif ml:
                         opts['sel'] = ('loopbody', ml.group(1), (int(ml.group(2)), int(ml.group(3))) if ml.group(2) else (1, 1))
                     elif ma:
@@ -1043,7 +1063,10 @@ def expand_fragment(frag_name, text, out_lines, regions, log, vacuity=False):
                         cur_sec = ('closuret', mc.group(1))
                     elif w[0] == 'loop':
                         flush()
-                        cur_sec = (w[0], int(w[1]))
+                        ml2 = re.match(r'^loop\s+<<(.*)>>\s*$', d2)
+                        # `loop N`: the N-th loop in textual order; `loop <<head>>`: the loop whose head starts with these
+                        # tokens (survives a reordering of loops)
+                        cur_sec = ('loopt', ml2.group(1)) if ml2 else (w[0], int(w[1]))
                     elif w[0] in ('after', 'before'):
                         flush()
                         mc = re.match(r'^(after|before)\s+<<(.*)>>\s*$', d2)
